@@ -1118,6 +1118,13 @@ def instance_test(interp, v, ty):
             return ty.name == 'object'
         return False
     if isinstance(ty, Opaque):
+        # an external class: an external object is an instance of the class that made it (when the contract's hook recorded it),
+        # and unknown otherwise -- both outcomes are explored
+        if isinstance(v, Opaque):
+            made_by = v.attrs.get('__class__') if isinstance(v.attrs, dict) else None
+            if made_by is not None:
+                return made_by is ty or getattr(made_by, 'name', None) == ty.name
+            return interp.ctx.branch(smt.fresh_bool('isinstance_external'), 'isinstance of an external class')
         return False
     raise Unsupported('isinstance(%r, %r)' % (v, ty))
 
